@@ -163,6 +163,9 @@ Definition print_loc (s e : cloc) : N * N * option (option N * N) :=
 Definition printed_line (p : N * N * option (option N * N)) : N := fst (fst p).
 Definition printed_col (p : N * N * option (option N * N)) : N := snd (fst p).
 
+(** JsFormat::write_trace: "    at {desc} ({path}:{line}:{column})" with start_end[0] *)
+Definition print_js (s : cloc) : N * N := (c_line s, c_col s).
+
 (* ------------------------------------------------------------------ lexer loop / tiling *)
 (** A token list [(kind, start, end)] tiles [0, n): non-empty tokens, contiguous from 0,
     ending at n.  (SPEC) *)
